@@ -48,6 +48,7 @@ PIP_DEPS = ["icontract"]
 SHARD_TIMEOUT = {"quick": 300, "thorough": 1800}
 
 KEYS = ["k0", "k1", "k2", "k3"]
+ODD_KEYS = ["", "0", " ", "k0\n"]   # legal str keys that are falsy / look like numbers / differ only in whitespace
 TIMES = [0, 0, 0.25, 0.5, 0.5, 1, 1, 1.5, 2, 3]
 HOLDS = [0, "y", "y", 0.25, 0.5, 0.5, 1, 1, 2]
 
@@ -71,6 +72,9 @@ def plan(tier, seed):
 def gen_case(rnd, deep=False):
     nkeys = rnd.choice([1, 2, 2, 3, 4] if deep else [1, 2, 2, 3])
     keys = KEYS[:nkeys]
+    if rnd.random() < 0.15:
+        keys = list(keys)
+        keys[rnd.randrange(len(keys))] = rnd.choice(ODD_KEYS)
     nt = rnd.randint(2, 12 if deep else 8)
     tasks = []
     for _ in range(nt):
@@ -142,8 +146,8 @@ def run_case(case, acc: Acc):
     _install_invariant(KeyedLock, _MON_REF)
     specs = case["tasks"]
     n = len(specs)
-    occ = {k: 0 for k in KEYS}
-    waiting = {k: 0 for k in KEYS}
+    occ = {k: 0 for k in KEYS + ODD_KEYS}
+    waiting = {k: 0 for k in KEYS + ODD_KEYS}
     st = ["not_started"] * n          # not_started | queued | holding | done
     cancel_req = [False] * n
     viol: list = []
